@@ -51,7 +51,8 @@ inductive Val
   | timedelta (us : Int)
   | member (c : Nat) (i : Nat)
   | inst (c : Nat) (fs : List (Str × Val))
-  | opaque (tag : Str)
+  | iter (xs : List Val)            -- a fresh one-shot iterator over xs
+  | opaque (tag : Str)              -- instance of an unrelated attribute-less class
   deriving Repr, Inhabited
 
 inductive Scalar
@@ -92,6 +93,7 @@ structure ClassInfo where
   flavour  : Flavour := .dataclass
   fields   : List (Str × Ty) := []
   required : List Str := []          -- TypedDict required keys / constructor params without default
+  defaults : List (Str × Val) := []  -- constructor defaults (default_factory results as values)
   members  : List (Str × Val) := []  -- enum members (name, value)
   mixin    : Mixin := .none
   deriving Repr, Inhabited
@@ -127,6 +129,7 @@ mutual
     | .timedelta a, .timedelta b => a == b
     | .member a b, .member c d => a == c && b == d
     | .inst a fs, .inst b gs => a == b && Val.beqFields fs gs
+    | .iter a, .iter b => Val.beqList a b
     | .opaque a, .opaque b => a == b
     | _, _ => false
   termination_by structural x => x
